@@ -73,7 +73,9 @@ fn exhaustive(ctx: &Ctx) {
             let results = &results;
             s.spawn(move || {
                 let pats = all_strings(&['*', a, b], 6);
-                let texts = all_strings(&[a, b], 8);
+                // texts may contain `*` themselves: there it is an ordinary character that only a pattern `*` can absorb
+                let mut texts = all_strings(&[a, b], 8);
+                texts.extend(all_strings(&['*', a, b], 6).into_iter().filter(|t| t.contains('*')));
                 let mut evals = 0u64;
                 let mut nt = Vec::new();
                 let mut first: Option<(Fail, String, String)> = None;
@@ -117,11 +119,13 @@ fn exhaustive(ctx: &Ctx) {
             }
         }
     }
-    ctx.exhaustive_space("all patterns of length <=6 over {*,a,b} x all texts of length <=8 over {a,b} (1093 x 511 pairs), repeated with a->é (2-byte) and with b->😀 (4-byte)");
+    ctx.exhaustive_space("all patterns of length <=6 over {*,a,b} x (all texts of length <=8 over {a,b} + all texts of length <=6 over {*,a,b} that contain a `*`) (1093 x (511 + 966) pairs), repeated with a->é (2-byte) and with b->😀 (4-byte)");
     ctx.sample("exhaustive", || json!({"pattern": "*aab", "text": "aaab", "reference": true}));
 }
 
 const LITS: &[&str] = &["aab", "abab", ".example", "/a/a", "a", "b", "aa", "é", "éé", "😀", "/", "ab", "ba"];
+/// what a `*` of the pattern stands for in the text: the literals above plus text that contains `*` itself
+const FILLS: &[&str] = &["aab", "abab", ".example", "/a/a", "a", "b", "aa", "é", "éé", "😀", "/", "ab", "ba", "*", "*a", "a*", "**"];
 
 #[derive(Clone, Debug)]
 enum Piece {
@@ -156,7 +160,7 @@ fn pair() -> impl Strategy<Value = (String, String)> {
                     Piece::Star => {
                         pat.push('*');
                         for l in &fills[star_no % fills.len()] {
-                            text.push_str(LITS[pt::idx(*l, LITS.len())]);
+                            text.push_str(FILLS[pt::idx(*l, FILLS.len())]);
                         }
                         star_no += 1;
                     }
@@ -175,12 +179,12 @@ fn pair() -> impl Strategy<Value = (String, String)> {
                 }
                 2 => {
                     let k = pt::idx(pos, chars.len() + 1);
-                    chars.insert(k, if pos & 1 == 0 { 'a' } else { 'b' });
+                    chars.insert(k, ['a', 'b', '*'][(pos % 3) as usize]);
                 }
                 3 => {
                     chars.clear();
                     for l in &indep {
-                        chars.extend(LITS[pt::idx(*l, LITS.len())].chars());
+                        chars.extend(FILLS[pt::idx(*l, FILLS.len())].chars());
                     }
                 }
                 _ => {}
@@ -219,7 +223,7 @@ fn random(ctx: &Ctx) {
 }
 
 pub fn run(ctx: &Ctx) {
-    ctx.rule("exhaustive small (pattern,text) pairs over 3 alphabets + random long pairs built from self-overlapping literals (half matching by construction, rest single-char mutants / independent); non-trivial = pattern has `*` followed by a literal char occurring >=2 times in the text; distinct by (pattern,text)");
+    ctx.rule("exhaustive small (pattern,text) pairs over 3 alphabets (texts with and without a literal `*`) + random long pairs built from self-overlapping literals, the text's star fillings including `*` itself (half matching by construction, rest single-char mutants / independent); non-trivial = pattern has `*` followed by a literal char occurring >=2 times in the text; distinct by (pattern,text)");
     ctx.assume("reference DP glob matcher (cross-checked against a naive recursive matcher on all patterns<=5 x texts<=6) is correct");
     exhaustive(ctx);
     random(ctx);
